@@ -473,6 +473,11 @@ func (b *BaseStore) Load(ctx context.Context, amount int) error {
 		amount = *b.options.MaxHistory
 	}
 
+	if amount <= 0 {
+		// no limit: load everything (a size of 0 would make the joins below trim the log to nothing)
+		amount = -1
+	}
+
 	var localHeads, remoteHeads []*entry.Entry
 	localHeadsBytes, err := b.Cache().Get(ctx, datastore.NewKey("_localHeads"))
 	if err != nil && err != datastore.ErrNotFound {
@@ -586,8 +591,23 @@ func (b *BaseStore) Load(ctx context.Context, amount int) error {
 
 			span.AddEvent("store-head-loaded")
 
+			// the log's Join slices the last `size` values and panics when there are fewer: only ask it
+			// to trim when the joined log will really be longer than the limit
+			joinSize := amount
+			if joinSize > 0 {
+				joined := oplog.Len()
+				for _, e := range l.GetEntries().Slice() {
+					if _, ok := oplog.Get(e.GetHash()); !ok {
+						joined++
+					}
+				}
+				if joined <= joinSize {
+					joinSize = -1
+				}
+			}
+
 			span.AddEvent("store-heads-joining")
-			if _, inErr = oplog.Join(l, amount); inErr != nil {
+			if _, inErr = oplog.Join(l, joinSize); inErr != nil {
 				span.AddEvent("store-heads-joining-failed")
 				// err = fmt.Errorf("unable to join log: %w", err)
 				// TODO: log
